@@ -59,6 +59,11 @@ def doc (j : Json) : Doc :=
     frags := (arr j "frags").map fun f =>
       { name := str f "name", typeCond := str f "typeCond", sels := (arr f "sels").map sel } }
 
+/-- the operation's own directives (document order), without the built-in ones -/
+def opDirs (j : Json) : List String :=
+  ((arr j "opDirs").filterMap fun d => match d with | .str n => some n | _ => none).filter
+    fun n => n != "skip" && n != "include" && n != "defer"
+
 def vars (j : Json) : Vars :=
   match j with
   | .obj kvs => kvs.toList.map fun (k, v) =>
